@@ -145,7 +145,52 @@ func formatCall(w *World, c *ssa.Call) (format string, args []ssa.Value, ok bool
 
 // writesTo: the call writes text to the io.Writer wr (io.WriteString(wr, s), fmt.Fprint*(wr, ...), wr.Write(b));
 // text is the value written (nil when it is the call itself that formats).
+// writerWrapper: fn(w, text) writes exactly its text parameter to its writer parameter, once, first thing
+// (`func writeLine(w io.Writer, line string) error { if _, err := io.WriteString(w, line); ... }`).
+func writerWrapper(w *World, fn *ssa.Function) (wIdx, textIdx int, ok bool) {
+	if fn == nil || len(fn.Blocks) == 0 || !w.InModule(fn) || fn.Signature.Recv() != nil {
+		return 0, 0, false
+	}
+	n := 0
+	for _, ci := range callsIn(fn) {
+		c, isC := ci.(*ssa.Call)
+		if !isC || c.Block() != fn.Blocks[0] {
+			continue
+		}
+		name := w.calleeName(&c.Call)
+		if name != "io.WriteString" || len(c.Call.Args) != 2 {
+			continue
+		}
+		wp, okW := c.Call.Args[0].(*ssa.Parameter)
+		tp, okT := c.Call.Args[1].(*ssa.Parameter)
+		if !okW || !okT {
+			continue
+		}
+		wIdx, textIdx = paramIndex(fn, wp), paramIndex(fn, tp)
+		n++
+	}
+	// no other write anywhere in the function
+	writes := 0
+	for _, ci := range callsIn(fn) {
+		if c, isC := ci.(*ssa.Call); isC {
+			switch w.calleeName(&c.Call) {
+			case "io.WriteString", "fmt.Fprintf", "fmt.Fprint", "fmt.Fprintln":
+				writes++
+			}
+			if c.Call.IsInvoke() && (c.Call.Method.Name() == "Write" || c.Call.Method.Name() == "WriteString") {
+				writes++
+			}
+		}
+	}
+	return wIdx, textIdx, n == 1 && writes == 1 && wIdx >= 0 && textIdx >= 0
+}
+
 func writesTo(w *World, c *ssa.Call, wr ssa.Value) (text ssa.Value, ok bool) {
+	if sc := c.Call.StaticCallee(); sc != nil && !c.Call.IsInvoke() {
+		if wi, ti, isW := writerWrapper(w, w.unwrap(sc)); isW && wi < len(c.Call.Args) && ti < len(c.Call.Args) && c.Call.Args[wi] == wr {
+			return c.Call.Args[ti], true
+		}
+	}
 	if c.Call.IsInvoke() {
 		if c.Call.Value == wr && (c.Call.Method.Name() == "Write" || c.Call.Method.Name() == "WriteString") && len(c.Call.Args) == 1 {
 			return c.Call.Args[0], true
@@ -189,6 +234,41 @@ func stringConstsBehind(w *World, v ssa.Value, depth int, out *[]string) {
 			*out = append(*out, f)
 		}
 	}
+}
+
+// intParamFromAllocator: every caller passes, for parameter p of g, the result of an index-allocating function (or its
+// own parameter, judged in turn).
+func intParamFromAllocator(w *World, m *bfModel, g *ssa.Function, p *ssa.Parameter, allocs map[*ssa.Function]bool, depth int) bool {
+	pi := paramIndex(g, p)
+	sites := w.Callers[g]
+	if pi < 0 || len(sites) == 0 || depth > 2 {
+		return false
+	}
+	for _, site := range sites {
+		args := site.Common().Args
+		if pi >= len(args) {
+			return false
+		}
+		a := args[pi]
+		if u, ok := a.(*ssa.UnOp); ok && u.Op == token.SUB {
+			a = u.X
+		}
+		switch x := a.(type) {
+		case *ssa.Call:
+			sc := x.Call.StaticCallee()
+			if sc == nil || !m.inPkg[w.unwrap(sc)] || !isIntResult(w.unwrap(sc)) {
+				return false
+			}
+			allocs[w.unwrap(sc)] = true
+		case *ssa.Parameter:
+			if !intParamFromAllocator(w, m, site.Parent(), x, allocs, depth+1) {
+				return false
+			}
+		default:
+			return false
+		}
+	}
+	return true
 }
 
 type write struct {
@@ -342,6 +422,12 @@ func ruleR12_1(w *World, r *Report) {
 				}
 			}
 			if callee == nil || !m.inPkg[callee] || !isIntResult(callee) {
+				// an integer parameter (a helper that is handed the literal): judged at every call site
+				if pr, isP := v.(*ssa.Parameter); isP {
+					if okAll := intParamFromAllocator(w, m, g, pr, allocs, 0); okAll {
+						return
+					}
+				}
 				bad = append(bad, fmt.Sprintf("%s at %s", st.Val.String(), w.InstrPos(st)))
 				return
 			}
@@ -424,6 +510,9 @@ func ruleR12_1(w *World, r *Report) {
 		g = w.unwrap(g)
 		if !m.inPkg[g] {
 			continue
+		}
+		if _, _, isW := writerWrapper(w, g); isW {
+			continue // a call of a write wrapper is itself the write (writesTo)
 		}
 		var groot, gwr ssa.Value
 		for i, a := range c.Call.Args {
